@@ -68,7 +68,7 @@ func NewResponse(code int, body io.Reader, req *http.Request) *http.Response {
 func Warning(header http.Header, err error) {
 	date := header.Get("Date")
 	if date == "" {
-		date = time.Now().Format(http.TimeFormat)
+		date = time.Now().UTC().Format(http.TimeFormat)
 	}
 
 	w := fmt.Sprintf(`199 "martian" %q %q`, err.Error(), date)
